@@ -60,6 +60,48 @@ NumKind(x, k) ==
   IF IsStr(x) THEN 0
   ELSE (IF x.kind = k THEN 1 ELSE 0) + NumKindKids(x.children, k) + SumArgs(x.largs, k) + SumArgs(x.defn, k)
 
+(* ---- where two trees differ (for the report: the verdict is Equiv alone) ---- *)
+\* First difference of two normalised trees in document order: which node (path of kinds from the
+\* root), what about it (kind / sarg / number of argument lists / attributes / an argument / children /
+\* definition), how many argument lists it had and has, how many of them were EMPTY.
+\* `soft`: the difference lies at or below a LINK / URL one of whose arguments is empty ([[a|]] is the
+\* pipe-trick spelling, [url ] an external link with an empty text) - forms the statement's grammar
+\* does not clearly contain; the harness reports those as DRIFT.
+NumEmpty(largs) == Cardinality({k \in 1..Len(largs) : largs[k] = <<>>})
+SoftNode(a) == a.kind \in {"LINK", "URL"} /\ NumEmpty(a.largs) > 0
+NoDiff == [what |-> "", path |-> <<>>, was |-> "", now |-> "", n1 |-> 0, n2 |-> 0, empty1 |-> 0, soft |-> FALSE]
+Rep(what, path, was, now, n1, n2, e1, soft) ==
+  [what |-> what, path |-> path, was |-> was, now |-> now, n1 |-> n1, n2 |-> n2, empty1 |-> e1, soft |-> soft]
+KindName(c) == IF IsStr(c) THEN "text" ELSE c.kind
+RECURSIVE DiffNode(_, _, _, _), DiffKids(_, _, _, _, _), DiffLists(_, _, _, _, _, _)
+DiffKids(ka, kb, k, path, soft) ==
+  IF k > Len(ka) /\ k > Len(kb) THEN NoDiff
+  ELSE IF k > Len(ka) \/ k > Len(kb)
+       THEN Rep("child-count", path, IF k > Len(ka) THEN "" ELSE KindName(ka[k]), IF k > Len(kb) THEN "" ELSE KindName(kb[k]),
+                Len(ka), Len(kb), 0, soft)
+  ELSE IF IsStr(ka[k]) # IsStr(kb[k]) THEN Rep("child-kind", path, KindName(ka[k]), KindName(kb[k]), Len(ka), Len(kb), 0, soft)
+  ELSE IF IsStr(ka[k]) THEN (IF ka[k] = kb[k] THEN DiffKids(ka, kb, k + 1, path, soft)
+                             ELSE Rep("text", path, "text", "text", Len(ka[k].s), Len(kb[k].s), 0, soft))
+  ELSE LET d == DiffNode(ka[k], kb[k], path, soft) IN IF d.what # "" THEN d ELSE DiffKids(ka, kb, k + 1, path, soft)
+DiffLists(la, lb, k, path, label, soft) ==   \* argument lists / definition: same length
+  IF k > Len(la) THEN NoDiff
+  ELSE LET d == DiffKids(la[k], lb[k], 1, Append(path, label \o ToString(k)), soft)
+       IN IF d.what # "" THEN d ELSE DiffLists(la, lb, k + 1, path, label, soft)
+DiffNode(a, b, path, soft0) ==
+  LET p == Append(path, a.kind)
+      soft == soft0 \/ SoftNode(a)
+      R(what, was, now) == Rep(what, p, was, now, Len(a.largs), Len(b.largs), NumEmpty(a.largs), soft)
+  IN IF a.kind # b.kind THEN R("kind", a.kind, b.kind)
+     ELSE IF a.sarg # b.sarg THEN R("sarg", a.kind, b.kind)
+     ELSE IF Len(a.largs) # Len(b.largs) THEN R("argument-count", a.kind, b.kind)
+     ELSE IF a.attrs # b.attrs THEN R("attributes", a.kind, b.kind)
+     ELSE IF Len(a.defn) # Len(b.defn) THEN R("definition", a.kind, b.kind)
+     ELSE LET da == DiffLists(a.largs, b.largs, 1, p, "arg", soft) IN
+          IF da.what # "" THEN da
+          ELSE LET dc == DiffKids(a.children, b.children, 1, p, soft) IN
+               IF dc.what # "" THEN dc ELSE DiffLists(a.defn, b.defn, 1, p, "definition", soft)
+Diff(t1, t2) == DiffNode(Norm(t1), Norm(t2), <<>>, FALSE)
+
 (* ---- which directly passed values are self-contained wikitext ---- *)
 StandaloneKinds == LevelKinds \cup {"LIST", "TABLE", "BOLD", "ITALIC", "LINK", "TEMPLATE", "TEMPLATE_ARG",
                                    "PARSER_FN", "URL", "HTML", "HLINE"}
@@ -98,6 +140,7 @@ StepCase ==
                   ELSE Append(bad, [i |-> i, e12 |-> e12, e23 |-> e23,
                                     links |-> <<NumKind(c.t1, "LINK"), NumKind(c.t2, "LINK"), NumKind(c.t3, "LINK")>>,
                                     devs |-> IF explained THEN devs ELSE {},
+                                    diag |-> IF ~e12 THEN Diff(c.t1, c.t2) ELSE Diff(c.t2, c.t3),
                                     ideal |-> ideal1])
         /\ drift' = IF (c.w1 = u1 \/ EmitterExplains(c.t1, c.w1)) /\ (c.w2 = u2 \/ EmitterExplains(c.t2, c.w2)) THEN drift
                     ELSE Append(drift, [i |-> i, which |-> IF c.w1 = u1 THEN 2 ELSE 1,
@@ -113,7 +156,8 @@ StepSub ==
          u == Unparse(c.x, EmitDevs)
          devs == {d \in EmitDevs : Unparse(c.x, {d}) # Unparse(c.x, {})} \cup CallDev(c.x, Root(AsKids(c.x)))
      IN /\ subbad' = IF ~el \/ ok THEN subbad
-                     ELSE Append(subbad, [j |-> j, devs |-> IF c.w = u THEN devs ELSE {}])
+                     ELSE Append(subbad, [j |-> j, devs |-> IF c.w = u THEN devs ELSE {},
+                                          diag |-> Diff(Root(AsKids(c.x)), c.t)])
         /\ subdrift' = IF c.w = u \/ EmitterExplains(c.x, c.w) THEN subdrift ELSE Append(subdrift, [j |-> j, model |-> u])
         /\ nsub' = IF el THEN nsub + 1 ELSE nsub
   /\ j' = j + 1
